@@ -380,6 +380,69 @@ def ctor_items(tier, seed):
     return items
 
 
+# ------------------------------------------------------------------------------------------------------
+# reflected operators of scalar classes: `FloatArray * V3f`, `V3f * FloatArray`, `V3fArray * Quatf` ... are answered by
+# the SCALAR class's __mul__/__rmul__ (the array class returns NotImplemented), so they are not methods of any array
+# class and do not go through the vectorisation machinery; catalogued separately through the operator itself.
+import operator as _operator
+BCAT = json.load(open(os.path.join(os.path.dirname(os.path.abspath(__file__)), "c20_catalogue_binop.json")))
+_BOPS = {"add": _operator.add, "sub": _operator.sub, "mul": _operator.mul, "truediv": _operator.truediv}
+
+
+def interp_binop(p):
+    e = BCAT[p["entry"] % len(BCAT)]
+    n = LENGTHS[p["len"] % len(LENGTHS)]
+    a, b = p["a"], p["b"]
+    layout = p["layout"] % 3   # the array operand: plain, masked reference, strided member view
+    op = _BOPS[e["op"]]
+    where = "%s %s %s (array %s) n=%d" % (e["cls"], e["op"], e["elem"][:-5], ("plain", "masked", "strided")[layout], n)
+    labels = set([("array_plain", "array_masked", "array_strided")[layout], e["side"]])
+
+    def run():
+        arr, keep = build_array(e["cls"], n, a, b, signed=True, masked=(layout == 1), strided=(layout == 2))
+        elem = ARR[e["elem"]]["mk"](1 + (a + b) % 5)
+        elems = [clone(arr[i]) if ARR[e["cls"]]["base"] == "obj" else arr[i] for i in range(n)]
+        before = snapshot(arr)
+        r = op(arr, elem) if e["side"] == "array_left" else op(elem, arr)
+        return r, arr, elem, elems, before, keep
+    POOL.remove()
+    try:
+        r0, arr0, elem0, elems0, before0, keep0 = run()
+    except Exception as ex:
+        raise Violation("catalogue/entry-raises", "%s raised %r (it did not on the unchanged tree)" % (where, ex))
+    if not is_array(r0) or type(r0).__name__ != e["result_class"] or len(r0) != n:
+        raise Violation("result/length", "%s returned %s instead of a %s of length %d" % (where, type(r0).__name__, e["result_class"], n))
+    c0 = snapshot(r0)
+    if snapshot(arr0) != before0:
+        raise Violation("binop/operand-modified", "%s changed its array operand" % where)
+    sched = make_schedule(p["sched"], n)
+    POOL.install(sched["workers"])
+    POOL.schedule(sched["cuts"], sched["order"], sched["tids"], sched["mode"])
+    try:
+        r1 = run()[0]
+    finally:
+        POOL.remove()
+    if snapshot(r1) != c0:
+        raise Violation("schedule/result-depends-on-partition", "%s differs under schedule %r" % (where, sched))
+    for i in (range(n) if n <= 64 else sorted(set([0, 1, n - 1, n // 2] + [(13 * q + a) % n for q in range(30)]))):
+        exp = op(elems0[i], elem0) if e["side"] == "array_left" else op(elem0, elems0[i])
+        if c0[i] != canon_elem(exp):
+            raise Violation("scalar/element-differs", "%s: element %d is %s, the scalar operation gives %s" % (where, i, c0[i], canon_elem(exp)))
+    labels.add("scalar_oracle_exact")
+    return dict(nontrivial=n > 2, labels=sorted(labels), desc=where)
+
+
+def binop_items(tier, seed):
+    items = []
+    for idx in range(len(BCAT)):
+        for li in ((2, 7) if tier != "thorough" else (0, 1, 2, 5, 7, 8)):
+            for layout in range(3):
+                s_ = (idx * 23 + li * 7 + layout * 3 + seed) % 997
+                items.append(dict(entry=idx, len=li, layout=layout, a=(s_ + 1) % 17, b=(s_ * 3) % 23,
+                                  sched=dict(cuts=[(s_ * 977 + 13000 * q) % 65537 for q in range(1 + s_ % 5)], order_salt=s_ + 1, tid_salt=s_ + 2, mode=s_ % 2, workers=s_ % 6)))
+    return items
+
+
 def race_items(tier, seed):
     """every catalogue entry and array constructor once (thorough: 3 schedules), above the dispatch threshold, under a
     truly concurrent schedule with >= 3 worker threads and >= 4 chunks; argument values repeat with period 9"""
@@ -407,6 +470,9 @@ GROUPS = [] if RACE_PASS else [
     Group("grid_ops", None, interp_grid, 0, 0,
           "complete sweep of the %d catalogued element-wise operators of FixedArray2D (Int/Float/Double/Color4f/Color4c) and FixedMatrix (Int/Float/Double) x argument kinds (none / same-shape container / scalar) on generated shapes up to 6x5: every element compared with the scalar operation (C semantics for numbers, the scalar binding for colours), operands untouched, other-shape operands must raise; non-trivial = more than one element" % len(GCAT),
           required_labels=["scalar_oracle_exact", "mismatch_raises", "inplace_operator", "array"], items=grid_items),
+    Group("reflected_ops", None, interp_binop, 0, 0,
+          "complete sweep of the %d array-valued binary expressions that are answered by a SCALAR class's reflected operator (FloatArray * V3f, V3f * FloatArray, V3fArray * Quatf ...: the array class returns NotImplemented, so no array method or module function covers them) x lengths {2, 257} (thorough: {0,1,2,201,257,1000}) x array operand laid out plainly / as a masked reference / as a strided member view: every element equals the scalar operation on that element, the operand is untouched, the result does not depend on an installed pool; non-trivial = more than 2 elements" % len(BCAT),
+          required_labels=["scalar_oracle_exact", "array_plain", "array_masked", "array_strided", "array_left", "array_right"], items=binop_items),
 ]
 if RACE_PASS:
     GROUPS = [
